@@ -46,7 +46,7 @@ ASSUMPTIONS = [
     "a point's own rectangle is accepted in the envelope whether or not it covers the point",
     "fixed_width_band_ci is exercised only with supports spanning the whole curve (nb_points or all scores)",
 ]
-PROBES = ["rule_of_three_low", "rule_of_three_high", "identity_sampler", "recording_builtin", "builtin_string", "degenerate_sampler",
+PROBES = ["interrupt_fired", "sampler_raise_fired", "rule_of_three_low", "rule_of_three_high", "identity_sampler", "recording_builtin", "builtin_string", "degenerate_sampler",
           "envelope_checked", "easy_source", "experimental_pointwise", "experimental_sjr", "experimental_fwb", "supplied_fnr",
           "supplied_fpr", "supplied_thresholds", "nb_points_given", "bca", "bc", "quantile", "envelope_widened"]
 
@@ -120,7 +120,13 @@ def generate(rnd, tier):
         cfg = {"nb_samples": rnd.randint(2, 8 if big else 60) if rnd.random() < 0.8 else rnd.randint(2, 6),
                "bootstrap_method": rnd.choice(["quantile", "bc", "bca"])}
         op = {"op": "band", "fn": fn, "args": args, "sampler": sampler, "cfg": cfg}
-        if not fault_free and sampler.get("callable") in (None, "recording") and rnd.random() < 0.6:
+        if not fault_free and rnd.random() < 0.12:
+            # control-flow faults: the call may fail, the caller's objects must survive intact
+            if sampler.get("callable") and rnd.random() < 0.5:
+                op["faults"] = [{"kind": "sampler_raise", "call": rnd.randint(0, cfg["nb_samples"])}]
+            else:
+                op["faults"] = [{"kind": "interrupt", "at_line": int(10 ** rnd.uniform(0.3, 4.3)), "exc": rnd.choice(["SimInterrupt", "MemoryError"])}]
+        elif not fault_free and sampler.get("callable") in (None, "recording") and rnd.random() < 0.6:
             fl = []
             for _ in range(rnd.choice([1, 1, 2, 3])):
                 if rnd.random() < 0.2:
@@ -192,13 +198,24 @@ def band_matches(got, x, dx, dy):
     return True, a
 
 
+class CallbackFault(Exception):
+    pass
+
+
 class RecSampler:
-    def __init__(self, kind, inner_config, which=0):
+    def __init__(self, kind, inner_config, which=0, raise_at=None):
         self.kind, self.inner, self.which = kind, inner_config, which
         self.outputs = []
+        self.raise_at = raise_at
+        self.raised = False
+        self.calls = 0
 
     def __call__(self, source, **kw):
         L = lib()
+        self.calls += 1
+        if self.raise_at is not None and self.calls - 1 == self.raise_at:
+            self.raised = True
+            raise CallbackFault(f"planned failure of sampler call {self.raise_at}")
         if self.kind == "identity":
             out = source
         elif self.kind == "recording":
@@ -257,7 +274,8 @@ def execute(scn, ctx):
         sampler = None
         if s_kind != "builtin":
             inner = M.build_config(dict(sspec.get("inner", {}), nb_samples=1)) if s_kind == "recording" else None
-            sampler = RecSampler(s_kind, inner, sspec.get("which", 0))
+            ra = next((f["call"] for f in (op.get("faults") or []) if f["kind"] == "sampler_raise"), None)
+            sampler = RecSampler(s_kind, inner, sspec.get("which", 0), raise_at=ra)
             config = M.build_config(dict(cfg, sampling_method={"callable": s_kind}), sampler=sampler)
         else:
             config = M.build_config(dict(sspec, **cfg))
@@ -282,6 +300,15 @@ def execute(scn, ctx):
         n_draws += res["draws"]
         fired = [kd for _, kd in res["fired"]]
         n_forced += sum(1 for kd in fired if kd != "interference")
+        if res["interrupted"]:
+            fired.append("interrupt")
+        if sampler is not None and sampler.raised:
+            fired.append("sampler_raise")
+        control_fault = res["interrupted"] or (sampler is not None and sampler.raised)
+        if res["interrupted"]:
+            probe("interrupt_fired")
+        if sampler is not None and sampler.raised:
+            probe("sampler_raise_fired")
         for kd in fired:
             faults[kd] = faults.get(kd, 0) + 1
 
@@ -291,7 +318,9 @@ def execute(scn, ctx):
         if M.fingerprint(src) != fp_before or M.fingerprint(list(callers.values())) != cfp or M.fingerprint(arrs) != arr_fp:
             bad("inputs_unchanged", f"{fn_name} modified the Scores object or a caller-supplied array")
         outcome = "ok"
-        if not res["ok"]:
+        if not res["ok"] and control_fault:
+            outcome = "failed-after-fault"  # fail-or-correct: raising is fine, the inputs were checked above
+        elif not res["ok"]:
             outcome = "raise:" + type(res["value"]).__name__
             tags = dict(tags, error=f"{type(res['value']).__name__}: {str(res['value'])[:80]}")
             bad("accepts_documented_arguments", f"{fn_name}({', '.join(sorted(kw))}) raised {type(res['value']).__name__}: {res['value']}")
@@ -321,7 +350,8 @@ def execute(scn, ctx):
                     if fn_name == "roc_with_ci" and not np.isnan(b).any() and (b.min() < 0.0 or b.max() > 1.0):
                         bad("band_in_unit_interval", f"{nm} leaves [0,1]: min {b.min()!r} max {b.max()!r}")
                 # ---- envelope refinement from the recorded resamples
-                if fn_name == "roc_with_ci" and shapes_ok and sampler is not None and not easy and len(sampler.outputs) == int(cfg["nb_samples"]):
+                if fn_name == "roc_with_ci" and shapes_ok and sampler is not None and not easy and not control_fault \
+                        and len(sampler.outputs) == int(cfg["nb_samples"]):
                     try:
                         reps = []
                         for s in sampler.outputs:
